@@ -14,7 +14,7 @@ import torch
 from .core.simrng import SimRNG, SimBudgetExceeded
 from .ref import geometry as G
 from . import tpbuild as B
-from .geosim import viol, innermost_site, make_filter, filter_ok
+from .geosim import viol, innermost_site, make_filter, filter_ok, giveup_plausible
 
 warnings.filterwarnings("ignore")
 
@@ -370,7 +370,7 @@ def run_c02(case):
                     break
                 except Exception as ex:
                     site = innermost_site(ex.__traceback__)
-                    if site.endswith("_check_iteration_number") and case.get("fault"):
+                    if site.endswith("_check_iteration_number") and (case.get("fault") or giveup_plausible(case.get("samp"))):
                         stats["documented_giveup"] = 1
                     elif _empty_density_partner(case["samp"], recs, "r"):
                         # excluded cell: a density(+filter) factor returned 0 points, the
@@ -412,7 +412,7 @@ def features_c02(case):
 def run_c15(case):
     """Static / adaptive state machines over a call history."""
     out, stats = [], {}
-    sim = SimRNG(case["rng"], fault=case.get("fault"))
+    sim = SimRNG(case["rng"], fault=case.get("fault"), budget_calls=30000)
     steps = 0
     log = []
     with sim:
@@ -430,7 +430,8 @@ def run_c15(case):
         except Exception as ex:
             if case["kind"] == "static" and "got size 0" in str(ex):
                 stats["excluded_empty_partner"] = 1   # as in C02: empty density partner sample
-            elif innermost_site(ex.__traceback__).endswith("_check_iteration_number") and case.get("fault"):
+            elif innermost_site(ex.__traceback__).endswith("_check_iteration_number") and (
+                    case.get("fault") or giveup_plausible(case.get("base"))):
                 stats["documented_giveup"] = 1
             else:
                 out.append(viol("C15", "call", "raises:" + type(ex).__name__, innermost_site(ex.__traceback__),
